@@ -17,9 +17,42 @@ from checks import progcheck
 PID = "C08"
 
 
+RAHMEN = S("Rahmen")     # a Kombination whose only heap data lives in a NESTED Kombination (nr: Zahl, innen: Punkt)
+SAFE_FOR_RAHMEN = ["init", "assign", "byvalue", "byvalue", "return", "falls", "refcall", "same_twice", "global", "list_store", "listlit", "foreach"]
+
+
 class AliasGen(Gen):
+    def __init__(self, rnd):
+        super().__init__(rnd)
+        self.prog.items.append(StructDecl("Rahmen", [("nr", Z, Lit(Z, 0)), ("innen", self.struct_ty, StructLit(self.struct_ty, []))]))
+
     def kinds(self):
-        return [T, L(Z), L(T), L(K), self.struct_ty, L(self.struct_ty), V]
+        return [T, L(Z), L(T), L(K), self.struct_ty, L(self.struct_ty), V, RAHMEN, L(RAHMEN), L(RAHMEN)]
+
+    def lit(self, ty):
+        if ty == RAHMEN:
+            inner = None
+            while inner is None:
+                inner = self.nonempty_lit(self.struct_ty)
+            return StructLit(RAHMEN, [Lit(Z, self.r.randint(1, 9)), inner])
+        if ty == L(RAHMEN):
+            return ListLit(ty, [self.lit(RAHMEN) for _ in range(self.r.randint(1, 2))])
+        return super().lit(ty)
+
+    def print_value(self, e):
+        if e.ty == RAHMEN:
+            v = self.fresh("r")
+            inn = Field(Var(v, RAHMEN), "innen", self.struct_ty)
+            return [Decl(v, RAHMEN, e), Print(Field(Var(v, RAHMEN), "nr", Z), False), Print(Lit(T, "/"), False), Print(Field(inn, "name", T), False), Print(Lit(T, "/"), False),
+                    Print(Field(inn, "werte", L(Z)), True)]
+        if e.ty == L(RAHMEN):
+            v, it = self.fresh("rl"), self.fresh("it")
+            inn = Field(Var(it, RAHMEN), "innen", self.struct_ty)
+            return [Decl(v, e.ty, e), Print(Un("laenge", Var(v, e.ty), Z), False),
+                    ForEach(it, RAHMEN, Var(v, e.ty), [Print(Lit(T, "["), False), Print(Field(Var(it, RAHMEN), "nr", Z), False), Print(Lit(T, "/"), False), Print(Field(inn, "name", T), False),
+                                                       Print(Lit(T, "/"), False), Print(Field(inn, "werte", L(Z)), False), Print(Lit(T, "]"), False)]),
+                    Print(Lit(T, ""), True)]
+        return super().print_value(e)
 
     def mutation(self, v, rnd):
         """statements that mutate holder v (a Var) in place, chosen by type"""
@@ -32,11 +65,20 @@ class AliasGen(Gen):
             opts += [[Assign(Bin("index", v, Lit(Z, 1), e), self.lit(e))], [Assign(v, Bin("verkettet", v, self.lit(e), ty))], [Assign(v, self.lit(ty))]]
             if e == Z:
                 opts.append([Compound("erhoehe", Bin("index", v, Lit(Z, 1), Z), Lit(Z, 5))])
-            if is_struct(e):
+            if e == RAHMEN:
+                inn = Field(Bin("index", v, Lit(Z, 1), e), "innen", self.struct_ty)
+                opts = [[Assign(Bin("index", Field(inn, "name", T), Lit(Z, 1), C), Lit(C, Char(rnd.choice("XQ"))))], [Assign(Bin("index", Field(inn, "werte", L(Z)), Lit(Z, 1), Z), Lit(Z, 77))],
+                        [Assign(Field(inn, "name", T), Lit(T, "ersetzt"))], [Assign(Field(inn, "werte", L(Z)), Bin("verkettet", Field(inn, "werte", L(Z)), Lit(Z, 8), L(Z)))],
+                        [Assign(Bin("index", v, Lit(Z, 1), e), self.lit(e))]]
+            elif is_struct(e):
                 opts.append([Assign(Field(Bin("index", v, Lit(Z, 1), e), "name", T), Lit(T, "geändert"))])
                 opts.append([Assign(Bin("index", Field(Bin("index", v, Lit(Z, 1), e), "werte", L(Z)), Lit(Z, 1), Z), Lit(Z, -5))])
             if e == T:
                 opts.append([Assign(Bin("index", Bin("index", v, Lit(Z, 1), T), Lit(Z, 1), C), Lit(C, Char("Q")))])
+        elif ty == RAHMEN:
+            inn = Field(v, "innen", self.struct_ty)
+            opts += [[Assign(Bin("index", Field(inn, "name", T), Lit(Z, 1), C), Lit(C, Char(rnd.choice("XQ"))))], [Assign(Bin("index", Field(inn, "werte", L(Z)), Lit(Z, 1), Z), Lit(Z, 77))],
+                     [Assign(Field(inn, "name", T), Lit(T, "ersetzt"))], [Assign(Field(v, "nr", Z), Lit(Z, 500))], [Assign(Field(inn, "werte", L(Z)), Bin("verkettet", Field(inn, "werte", L(Z)), Lit(Z, 8), L(Z)))]]
         elif is_struct(ty):
             opts += [[Assign(Field(v, "x", Z), Lit(Z, 99))], [Assign(Field(v, "name", T), Lit(T, "anders"))], [Assign(Bin("index", Field(v, "werte", L(Z)), Lit(Z, 1), Z), Lit(Z, 42))],
                      [Assign(Field(v, "werte", L(Z)), Bin("verkettet", Field(v, "werte", L(Z)), Lit(Z, 7), L(Z)))], [Assign(Bin("index", Field(v, "name", T), Lit(Z, 1), C), Lit(C, Char("Z")))],
@@ -53,6 +95,8 @@ class AliasGen(Gen):
                 continue
             if isinstance(l, Lit) and l.ty == T and not l.v:
                 continue
+            if ty in (RAHMEN, L(RAHMEN)):
+                return l
             if isinstance(l, StructLit) and (not l.args or not l.args[2].elems or not l.args[1].v):
                 continue
             if isinstance(l, ListLit) and is_struct(ty[1]) and any((not e.args or not e.args[2].elems or not e.args[1].v) for e in l.elems):
@@ -93,7 +137,9 @@ class AliasGen(Gen):
             return 0
         construct = r.choice(["init", "assign", "byvalue", "byvalue", "list_store", "field_store", "foreach", "return", "falls", "listlit", "boxing", "refcall", "same_twice",
                               "same_twice", "part_ref", "part_ref", "global", "recursive", "operator", "operator", "nested_ref", "nested_ref", "foreach_source", "foreach_source"])
-        self.cells.add(("construct", construct, progcheck.tn(ty)))
+        if ty in (RAHMEN, L(RAHMEN)):
+            construct = r.choice(SAFE_FOR_RAHMEN)
+        self.cells.add(("construct", construct, progcheck.tn(ty) + ("(nested)" if ty in (RAHMEN, L(RAHMEN)) else "")))
         n0 = self.obs
         cp_name = self.fresh("k")
         cp = Var(cp_name, ty)
